@@ -201,6 +201,13 @@ def prefix(out, T):
              allocs=[(t, sorted((k, repr(float(v))) for k, v in w.items())) for t, w in out.allocs if t < lim])
     f = out.failure
     p["failure"] = [f[0], f[1], out.extra.get("message", "")] if f is not None and f[1] < lim else None
+    # the allocation table the session reports (get_target_allocations): rows dated <= T; only a completed run has one
+    df = getattr(out, "alloc_df", None)
+    if df:
+        day = ts(T * 1440).strftime("%Y-%m-%d")
+        p["alloc_table"] = [(d, sorted((k, repr(v)) for k, v in row.items())) for d, row in zip(df["index"], df["rows"]) if d[:10] <= day]
+    else:
+        p["alloc_table"] = None
     return p
 
 
@@ -214,7 +221,7 @@ def _twin_job(job):
     except Exception as e:
         return ("rig", "%s: %s" % (type(e).__name__, e), None)
     p1, p2 = prefix(o1, T), prefix(o2, T)
-    diffs = [k for k in p1 if p1[k] != p2[k]]
+    diffs = [k for k in p1 if p1[k] != p2[k] and not (k == "alloc_table" and (p1[k] is None or p2[k] is None))]
     stat = dict(points=len(p1["curve"]), fills=len(p1["fills"]), allocs=len(p1["allocs"]), failed=p1["failure"] is not None,
                 total_points=len(o1.curve))
     if not diffs:
@@ -257,6 +264,49 @@ def f5_spec(rng):
              fee=dict(kind="zero", c=0, t=0), cash=1000000, alpha="single", weights={}, burn=-1,
              entry=dict((a, entry_close) for a in assets), market=market, assets=assets)
     return dict(cfg=c, alpha="topn", lookback=2, topn=1)
+
+
+def _order_sensitive(ws, lev, cash, pxs):
+    """Input selection only (not an oracle): would a plain left-to-right float sum of the weights, taken in a different
+    order, move some whole-share target?  Mirrors the sizers' float arithmetic closely enough to find such inputs."""
+    import itertools
+    import math
+    names = sorted(ws)
+    seen = {}
+    perms = list(itertools.permutations(names))
+    for perm in perms:
+        g = 0.0
+        for a in perm:
+            g = g + abs(ws[a]) / 10.0
+        ratio = lev / g
+        k = (tuple(int(math.floor((cash / 1000.0) * ((ws[a] / 10.0) * ratio)) / (pxs[a] / 1000.0)) for a in names),
+             tuple(int(math.floor((cash / 1000.0) * ((ws[a] / 10.0) / g * lev)) / (pxs[a] / 1000.0)) for a in names))
+        seen[k] = seen.get(k, 0) + 1
+    return len(seen) > 1 and max(seen.values()) * 3 <= len(perms) * 2       # no outcome covers more than 2/3 of the orders
+
+
+def boundary_spec(rng):
+    """Decimal weights (0.1 / 0.2 / 0.3 ...), round prices and a round account, chosen so that (i) the float sum of
+    the weights depends on the order of summation and (ii) some exact target is a whole number of shares: a last-bit
+    difference in any intermediate float (for instance a sum taken in set order) then moves a quantity by one share.
+    Three to five assets with names of different lengths."""
+    for _try in range(400):
+        d0 = rng.choice([18267, 18288, 18317])
+        n = rng.choice([3, 3, 4, 5])
+        assets = rng.sample(["A", "B", "C", "D", "E", "QQ", "ZYX"], n)
+        pxs = dict((a, rng.choice([10000, 20000, 25000, 50000, 100000])) for a in assets)
+        kind = rng.choice(["ls", "ls", "ls", "dw"])
+        ws = dict((a, rng.choice([1, 2, 3, 4, 6, 7]) * (-1 if kind == "ls" and rng.random() < 0.25 else 1)) for a in assets)
+        par = rng.choice(["1", "2"]) if kind == "ls" else "0"
+        cash = rng.choice([1000000000, 100000000])
+        if _order_sensitive(ws, int(par) if kind == "ls" else 1, cash, pxs):
+            break
+    days = sr.bdays(d0 - 3, d0 + 11)
+    market = dict((a, dict((str(d), [pxs[a], pxs[a]]) for d in days)) for a in assets)
+    c = dict(start=d0 * 1440, end=(d0 + 11) * 1440 + 1439, sched=rng.choice(["weekly", "daily"]), wd=rng.randrange(5), kind=kind,
+             par=par, fee=dict(kind="zero", c=0, t=0), cash=cash, alpha="fixed", weights=ws, burn=-1,
+             entry=dict((a, 0) for a in assets), market=market, assets=sorted(assets))
+    return dict(cfg=c, alpha="config", lookback=1, topn=1, wdiv=10, boundary=True)
 
 
 def child_main():
@@ -377,7 +427,8 @@ def run(prop, replay_file=None):
     rng = random.Random(sd * 7907 + (7 if prop == "C07" else 18))
     if prop == "C07":
         rep.assumptions = ["a market is asset -> dated bars; an asset left with no bar at all has NO file (a header-only CSV cannot be loaded)",
-                           "outputs compared: equity points, fills (time, asset, quantity, price, commission), allocation records dated <= T, "
+                           "outputs compared: equity points, fills (time, asset, quantity, price, commission), allocation records and the rows of the "
+                           "reported allocation table (when both runs complete) dated <= T, "
                            "and a failure (type, message, event time) at a time <= T; compared exactly (floats as exact fractions)"]
         if replay_file:
             payload = json.load(open(replay_file))
@@ -422,19 +473,19 @@ def run(prop, replay_file=None):
         return rep
     # ---- C18 ----
     rep.assumptions = ["digest = fills without order identifiers, equity curve, allocation records, failure; compared bit for bit",
-                       "fresh interpreters under PYTHONHASHSEED 0, 1, 2, 3 and 'random'"]
+                       "fresh interpreters under PYTHONHASHSEED 0..7 (thorough: 0..11 and 'random')"]
     signals_order_check(rep)
     model_determinism(rep, rng, 80 if t == "quick" else 1500)
-    n = 10 if t == "quick" else 160
+    n = 18 if t == "quick" else 240
     if replay_file:
         specs = [json.load(open(replay_file))["spec"]]
     else:
-        specs = [f5_spec(rng), f5_spec(rng)]
+        specs = [f5_spec(rng), f5_spec(rng)] + [boundary_spec(rng) for _ in range(8 if t == "quick" else 80)]
         while len(specs) < n:
             specs.append(gen_world(rng, realistic=(len(specs) % 2 == 0)))
     if REPO not in sys.path:
         sys.path.insert(0, REPO)
-    seeds = ["0", "1", "2", "3", "random"] if t == "thorough" else ["0", "1", "2", "3"]
+    seeds = [str(k) for k in range(12)] + ["random"] if t == "thorough" else [str(k) for k in range(8)]
     with multiprocessing.Pool(16) as pool:
         fresh = pool.map(_seed_job, [(s, hs) for s in specs for hs in seeds], chunksize=1)
     nontriv = 0
@@ -471,7 +522,8 @@ def run(prop, replay_file=None):
     rep.cov["traces_validated_against_impl"] = len(specs) * (len(seeds) + 3)
     rep.cov["distinct_nontrivial"] = max(nontriv, 0)
     rep.cov["rule"] = ("configurations drawn by seed (the first two: several assets entering a dynamic universe at the same close with tied "
-                       "momentum under the top-N momentum alpha model); each run twice in-process, once with warm data sources and once per hash "
+                       "momentum under the top-N momentum alpha model; then boundary configurations: three to five assets, decimal weights, "
+                       "round prices and account, so that every target is exactly a whole share); each run twice in-process, once with warm data sources and once per hash "
                        "seed in a fresh interpreter; non-trivial = at least one fill and two equity points")
     rep.cov["exhaustive"] = False
     return rep
